@@ -12,7 +12,6 @@ use nom::{
     branch::alt,
     bytes::complete::{take, take_while, take_while1},
     character::complete::{anychar, digit1, multispace0, multispace1, none_of, satisfy},
-    character::{is_alphabetic, is_alphanumeric},
     combinator::{eof, map, map_opt, map_res, opt, peek, recognize},
     error::ParseError,
     multi::{many0, many_till, separated_list0, separated_list1},
@@ -816,11 +815,11 @@ fn parse_search(input: Span) -> IResult<Span, Search> {
 }
 
 fn is_ident(c: char) -> bool {
-    is_alphanumeric(c as u8) || c == '_'
+    c.is_ascii_alphanumeric() || c == '_'
 }
 
 fn starts_ident(c: char) -> bool {
-    is_alphabetic(c as u8) || c == '_'
+    c.is_ascii_alphabetic() || c == '_'
 }
 
 /// Tests if the input character can be part of a search keyword.
@@ -831,7 +830,7 @@ fn starts_ident(c: char) -> bool {
 fn is_keyword(c: char) -> bool {
     match c {
         '-' | '_' | ':' | '/' | '.' | '+' | '@' | '#' | '$' | '%' | '^' | '*' => true,
-        alpha if is_alphanumeric(alpha as u8) => true,
+        alpha if alpha.is_ascii_alphanumeric() => true,
         _ => false,
     }
 }
